@@ -6,19 +6,80 @@ import HexProofs.Numeric.Stdev
 import HexProofs.Numeric.Supertrend
 import HexProofs.Numeric.SeriesMore
 import HexProofs.Numeric.Demo
+import HexProofs.Numeric.SeriesATR
+import HexProofs.Numeric.SeriesStdevBB
+import HexProofs.Numeric.SeriesKC
+import HexProofs.Numeric.SeriesSupertrend
+import HexProofs.Numeric.SeriesWindows
+import HexProofs.Numeric.SeriesUtility
 /-
 C05 – Volatility, range, channel and utility indicators match their definitions
 (NUMERIC layer: ordered field `K` with `LawfulPyF K`; IEEE rounding error, overflow and NaN are
 outside these theorems – see HexProofs/Numeric/Lawful.lean).
+Indicators: TR, HLA, ATR, STDEV, BBANDS, KC, Donchian, HighestLowest, Supertrend, STDEV-threshold,
+Counter.
 
-Per `_calculate_reading` call: given the readings the method reads, the returned value is the
-textbook expression.  Indicators covered: TR, ATR, STDEV, BBANDS, KC, Donchian, HighestLowest,
-HLA, Supertrend, STDEV-threshold, Counter.  For the two leaf indicators that read only candle
-fields – HLA and TR – the WHOLE-SERIES statements are proved too (`hla_series`, `tr_series`, on the
-row-major spec that C01 ties to `calculate()`).  Missing for the full property (`C05_FULL`): the
-induction along the framework's calculation order for the indicators with sub-indicators and
-managed helper series (ATR over its TR helper, STDEV, BBANDS, KC, Supertrend, STDEV-threshold) and
-for Donchian / HighestLowest / Counter, i.e. whole `as_list()` series and warm-up indices.
+WHAT IS PROVED NOW
+
+1. Per `_calculate_reading` call (all eleven indicators, first half of the file): given the readings
+   the method reads, the returned value is the textbook expression.
+
+2. WHOLE SERIES for ALL ELEVEN indicators (second half): for EVERY raw candle stream the row-major
+   run never raises, and every stored reading – the indicator's own and every helper / managed
+   series – is the textbook value of the raw candles within an explicit rounding budget, from the
+   TRUE warm-up index on.  Every `*_series` theorem comes with the statement that the same candles
+   are what the batch run of the object returns (`*_batch`, `*_batch_readings`: build over the whole
+   stream, `calculate()` once; `atr_engine_readings`, `leaf_engine`: the engine's `calculate()`) and
+   what EVERY append schedule returns (`*_live`).  Warm-up indices and budgets (`ε_n` = half a unit
+   of the node's `rounding` `n`; `ε₄`: helper series are rounded to `defaultRound = 4` decimals by the
+   engine whatever `n` is; managed `…_data` series are NOT rounded):
+     * HLA: every candle, `round_n((high+low)/2)`.   TR: `None` on candle 0 (no previous close).
+     * ATR(p ≥ 1): helper `name_TR` rounded to 4 decimals; own reading `None` on candles `0 … p−1`,
+       FIRST READING AT INDEX `p` (not `p − 1`: TR starts at 1) = mean of the stored `TR₁ … TR_p`, then
+       Wilder's recurrence on the stored predecessor; `≥ 0`; within `p·ε_n` of Wilder's average of the
+       STORED true ranges (`AtrOK`, no growth) and within `p·ε_n + ε₄` of that of the EXACT true
+       ranges (`AtrOKTrue`).
+     * STDEV(p ≥ 1): FIRST READING AT INDEX `p` (`reading_period(p + 1)`, although the window is full
+       at `p − 1`); `name_data = {mean, variance}` holds the running statistics EXACTLY (from `p − 1`
+       on: mean and population variance of the last `p` inputs); own reading
+       `= round_n(sqrt(variance))`: within `ε_n`, no growth, `≥ 0` (`[NonnegSqrt K]`).
+     * BBANDS(p ≥ 2): helpers `name_STDEV` (from `p`), `name_SMA` (from `p − 1`), both 4 decimals; own
+       reading the dict of `None`s on candles `0 … p−1`, from `p` on `lower ≤ middle ≤ upper`,
+       middle within `ε_n + (j+2−p)·ε₄` of the SMA (the SMA helper's running update accumulates), outer
+       bands within `ε_n + (j+4−p)·ε₄` of `SMA ∓ 2σ` (`bb_bands`).
+     * KC(p ≥ 2): helpers `name_ATR_TR`, `name_ATR` (from `p`), `name_EMA` (from `p − 1`), 4 decimals;
+       own dict of `None`s on candles `0 … p−1`, from `p` on `{lower, band, upper}` of the STORED helper
+       readings: `|band − EMA| ≤ ε_n + ε₄/α`, `|lower/upper − (EMA ∓ m·ATR)| ≤ ε_n + ε₄/α + |m|·p·ε₄`
+       (`+ |m|·ε₄` against the exact true ranges), `α = 2/(p+1)`, no growth; `lower ≤ band ≤ upper`
+       for `m ≥ 0` (`KcSeriesOK`).
+     * Supertrend(p ≥ 1): helpers `name_atr_TR`, `name_atr` (from `p`, Wilder's average rounded to 4
+       decimals at every step: within `p·ε₄`, `st_atr_budget`), `name_HL` (4 decimals); own reading a
+       dict on every candle, `stNoneDict` before index `p`; from `p` on the TEXTBOOK STATE MACHINE
+       `stSeries` (start `(1, HL2 + m·ATR, HL2 − m·ATR)`, then flip / ratchet against the previous stored
+       bands) run on the STORED helper readings: `name_data` holds its bands EXACTLY, the own reading
+       within `ε_n`, direction exact.  Of the machine: direction `±1` (`st_dir`), flips exactly when the
+       close breaks the previous ACTIVE band (`st_flip`), the active band ratchets while the close
+       stays between the previous bands (`st_ratchet`).
+     * Donchian(p ≥ 2): `None` fields up to `p − 2`, first reading at `p − 1`, window = last `p`
+       candles; `DCL`/`DCU` keep their type (ints unrounded, floats within `ε_n`), `DCM` within `ε_n`;
+       the channel encloses the candle (`donchian_near`).
+       HighestLowest(p ≥ 1): NO warm-up, window = last `p + 1` candles cut at candle 0 (`hl_near`).
+     * Counter: every carrier `[PyF F]` (also the executed `Float`), ANY input column (foreign
+       readings, missing values): first reading at index 0, the int `runLen` – a missing input keeps
+       the count, a match adds one, anything else resets (`counter_steps`).
+     * STDEV-threshold(p ≥ 1): helper `name_stdev` (from `p`, 4 decimals); own reading the bool
+       `False` on candles `0 … p−1`, then EXACTLY `σ_stored·m < |x_j − x_{j−1}|`; equal to the textbook
+       flag on the exact σ unless `| |x_j − x_{j−1}| − σ·m | ≤ |m|·ε₄` (`thres_agree`).
+   `C05_FULL` (the former open statement, for ATR, with its budget and fuel corrected – see there) is
+   now a theorem: `C05_FULL_holds`.
+
+STILL OPEN (`C05_inputs_FULL` below): whole series for an input that is ANOTHER INDICATOR's reading
+beginning late, over candle lists that already hold foreign readings (STDEV, BBANDS, KC, STDEV-threshold
+take an `input`; for Counter this IS proved on the row-major spec, `counter_series_col`, but tied to
+the engine for candle-attribute inputs only); the numeric statements on a collapsing timeframe (the
+series theorems are over the base timeframe, `runIndicator … {} …`; `*_live` covers every append
+schedule; C01/C03 give the structural part); IEEE effects (rounding error of the arithmetic itself,
+overflow, NaN).
 -/
 namespace Hex.C05
 open Hex Hex.Numeric
@@ -286,7 +347,19 @@ example : Calc.counter (Demo.ctx "COUNT") "close" (.num (.int 15)) = .ok (.int 3
   have := counter (Demo.ctx "COUNT") "close" (.num (.int 15)) (.num (.int 15)) (.int 2) rfl rfl (Or.inr ⟨2, rfl⟩)
   rw [this]; rfl
 
-/-! ### whole series -/
+/-! ## whole series -/
+
+/-- the five raw demo candles over ℚ (highs 12 13 15 16 15, lows 9 10 11 13 15, closes 11 12 14 15 15) -/
+def demoRaw : List (Candle ℚ) :=
+  [Demo.mk 10 12 9 11 100, Demo.mk 11 13 10 12 200, Demo.mk 12 15 11 14 300, Demo.mk 14 16 13 15 0,
+   Demo.mk 15 15 15 15 0]
+
+theorem demoRaw_plain : ∀ c ∈ demoRaw, Plain c := by
+  intro c hc
+  simp only [demoRaw, List.mem_cons, List.not_mem_nil, or_false] at hc
+  rcases hc with rfl | rfl | rfl | rfl | rfl <;> exact ⟨rfl, rfl⟩
+
+/-! ### HLA, TR (leaves over candle fields) -/
 
 /-- **HLA, whole series**: every candle of every raw stream gets `round((high + low)/2)`. -/
 theorem hla_series (nm : String) (n : Nat) (hk : IsKey nm)
@@ -309,15 +382,6 @@ theorem tr_series (nm : String) (n : Nat) (hk : IsKey nm)
           t.toF = trAt (fieldAt (·.h) raw) (fieldAt (·.l) raw) (fieldAt (·.c) raw) j) :=
   Numeric.tr_series nm n hk raw hraw
 
-/-- four raw candles over ℚ -/
-def demoRaw : List (Candle ℚ) :=
-  [Demo.mk 10 12 9 11 100, Demo.mk 11 13 10 12 200, Demo.mk 12 15 11 14 300, Demo.mk 14 16 13 15 0]
-
-theorem demoRaw_plain : ∀ c ∈ demoRaw, Plain c := by
-  intro c hc
-  simp only [demoRaw, List.mem_cons, List.not_mem_nil, or_false] at hc
-  rcases hc with rfl | rfl | rfl | rfl <;> exact ⟨rfl, rfl⟩
-
 example : ∃ vs : List (Val ℚ), vs.length = demoRaw.length ∧
     rowMajor (mkTop .tr "TR" 4) demoRaw = .ok (deco "TR" demoRaw vs) ∧
     ∀ j, j < demoRaw.length →
@@ -326,26 +390,702 @@ example : ∃ vs : List (Val ℚ), vs.length = demoRaw.length ∧
         t.toF = trAt (fieldAt (·.h) demoRaw) (fieldAt (·.l) demoRaw) (fieldAt (·.c) demoRaw) j) :=
   tr_series "TR" 4 (by decide) demoRaw demoRaw_plain
 
-/-- The full property, stated for ATR (the other ten indicators: the same shape with their own
-exact series – window extremes for Donchian/HighestLowest, `sqrt` of the window's population
-variance for STDEV, SMA ∓ 2σ, EMA ∓ m·ATR, the ratcheted HL2 ∓ m·ATR bands, the threshold flag, the
-run length): for every raw stream and `period ≥ 2` the ENGINE `calculate` never raises and stores
-`None` on the first `period` candles (TR needs a previous close) and afterwards a float within
-`ε·period` of Wilder's average of the true ranges seeded by the mean of the first `period` of them.
-NOT proved.  Proved instead: every single `_calculate_reading` call of all eleven indicators
-(`tr` … `counter` above), the exactness of STDEV's running update, the whole series for HLA and TR.
-Missing: the framework induction through sub-indicators and managed helper series. -/
+/-- **the leaf kinds through the engine and the object** (HLA, TR, Donchian, HighestLowest, Counter
+– every `Covered` leaf kind): whenever the row-major run of a series theorem returns `out`, the
+engine's `calculate()` on the raw candles (`engineCalc`) and the batch run of the object return
+exactly `out`. -/
+theorem leaf_engine (k : Kind K) (nm : String) (n : Nat) (hc : Covered nm k)
+    (raw : List (Candle K)) (hraw : ∀ c ∈ raw, Plain c) (out : List (Candle K))
+    (h : rowMajor (mkTop k nm n) raw = .ok out) :
+    engineCalc (mkTop k nm n) raw = .ok out ∧
+    candlesOf (runIndicator (mkTop k nm n) {} raw []) = .ok out :=
+  leaf_series_engine k nm n hc raw hraw out h
+
+/-- **… and for every append schedule**: whenever a live history (construction over `init`,
+`calculate()`, then any appends) returns `snap`, `snap` is the row-major run over the whole stream. -/
+theorem leaf_live (k : Kind K) (nm : String) (n : Nat) (hc : Covered nm k)
+    (init : List (Candle K)) (chunks : List (List (Candle K)))
+    (hraw : ∀ c ∈ init ++ chunks.flatten, Plain c) (snap out : List (Candle K))
+    (hsnap : candlesOf (runIndicator (mkTop k nm n) {} init chunks) = .ok snap)
+    (h : rowMajor (mkTop k nm n) (init ++ chunks.flatten) = .ok out) : snap = out :=
+  leaf_series_live k nm n hc init chunks hraw snap out hsnap h
+
+/-- the TR run over the demo candles IS what `calculate()` and the batch run return -/
+example : ∃ out : List (Candle ℚ), engineCalc (mkTop (.tr : Kind ℚ) "TR" 4) demoRaw = .ok out ∧
+    candlesOf (runIndicator (mkTop (.tr : Kind ℚ) "TR" 4) {} demoRaw []) = .ok out := by
+  obtain ⟨vs, _, h2, _⟩ := tr_series "TR" 4 (by decide) demoRaw demoRaw_plain
+  exact ⟨_, leaf_engine _ "TR" 4 Covered.tr demoRaw demoRaw_plain _ h2⟩
+
+/-! ### ATR (node + prior `name_TR` helper) -/
+
+/-- **ATR, whole series** (row-major run of `atrTree`; `period = p ≥ 1`; `name`, `name_TR` ordinary
+distinct keys).  For every raw stream the run never raises and returns the raw candles with
+* under `name_TR` (`.sub_indicators`): `trStored raw j` – `None` on candle 0, then the true range
+  `max(h−l, |h−c₋₁|, |l−c₋₁|)` rounded to 4 decimals (ints stay ints);
+* under `name`: `vs[j]` with `AtrOK`: `None` for `j < p` – the FIRST READING IS AT INDEX `p` – then a
+  non-negative float within `p·ε_n` (`= ε_n/(1/p)`, not growing) of Wilder's average `atrExact` of
+  the STORED true ranges `trS` (mean of `TR₁ … TR_p` at `j = p`, then `(prev·(p−1) + TR_j)/p`). -/
+theorem atr_series (p : Nat) (hp : 1 ≤ p) (nm : String) (n : Nat) (hk : IsKey nm) (hn : AtrNames nm)
+    (raw : List (Candle K)) (hraw : ∀ c ∈ raw, Plain c) :
+    ∃ vs : List (Val K), vs.length = raw.length ∧
+      Gen.rowMajor (atrTree nm n (p : Int) (by omega) hn).S raw
+        = .ok (deco nm (trDeco (nm ++ "_TR") raw) vs) ∧
+      ∀ j, j < raw.length → AtrOK p n (trS raw) j (vs.getD j .none) :=
+  Numeric.atr_series p hp nm n hk hn raw hraw
+
+/-- **ATR, whole series, reading by reading**: the run returns a list of the raw candles' length
+whose candle `j` is raw candle `j` carrying under `name_TR` the rounded true range (`None` on candle
+0) and under `name` a reading that is `AtrOK` w.r.t. the stored true ranges (budget `p·ε_n`) and
+`AtrOKTrue` w.r.t. the EXACT true ranges of the raw candles (budget `p·ε_n + ε₄`: the TR helper's
+readings are themselves rounded to 4 decimals before ATR reads them). -/
+theorem atr_series_readings (p : Nat) (hp : 1 ≤ p) (nm : String) (n : Nat) (hk : IsKey nm)
+    (hn : AtrNames nm) (raw : List (Candle K)) (hraw : ∀ c ∈ raw, Plain c) :
+    ∃ out : List (Candle K),
+      Gen.rowMajor (atrTree nm n (p : Int) (by omega) hn).S raw = .ok out ∧ out.length = raw.length ∧
+      ∀ j, j < raw.length →
+        (out.getD j default).bare = (raw.getD j default).bare ∧
+        readingByCandle (out.getD j default) (nm ++ "_TR") = trStored raw j ∧
+        AtrOK p n (trS raw) j (readingByCandle (out.getD j default) nm) ∧
+        AtrOKTrue p n raw j (readingByCandle (out.getD j default) nm) :=
+  Numeric.atr_series_readings p hp nm n hk hn raw hraw
+
+/-- **… through the engine**: `calculate()` on the raw candles never raises and stores those readings. -/
+theorem atr_engine_readings (p : Nat) (hp : 1 ≤ p) (nm : String) (n : Nat) (hk : IsKey nm)
+    (hn : AtrNames nm) (raw : List (Candle K)) (hraw : ∀ c ∈ raw, Plain c) :
+    ∃ out : List (Candle K), engineCalc (mkTop (.atr (p : Int)) nm n) raw = .ok out ∧
+      out.length = raw.length ∧
+      ∀ j, j < raw.length →
+        (out.getD j default).bare = (raw.getD j default).bare ∧
+        readingByCandle (out.getD j default) (nm ++ "_TR") = trStored raw j ∧
+        AtrOK p n (trS raw) j (readingByCandle (out.getD j default) nm) ∧
+        AtrOKTrue p n raw j (readingByCandle (out.getD j default) nm) :=
+  Numeric.atr_engine_readings p hp nm n hk hn raw hraw
+
+/-- **… through the object**: the batch run (build over the whole stream, `calculate()` once)
+returns (`Numeric.atr_batch`), and whenever it returns `out`, `out` carries exactly those readings. -/
+theorem atr_batch_readings (p : Nat) (hp : 1 ≤ p) (nm : String) (n : Nat) (hk : IsKey nm)
+    (hn : AtrNames nm) (raw : List (Candle K)) (hraw : ∀ c ∈ raw, Plain c) (out : List (Candle K))
+    (hout : candlesOf (runIndicator (mkTop (.atr (p : Int)) nm n) {} raw []) = .ok out) :
+    out.length = raw.length ∧
+    ∀ j, j < raw.length →
+      (out.getD j default).bare = (raw.getD j default).bare ∧
+      readingByCandle (out.getD j default) (nm ++ "_TR") = trStored raw j ∧
+      AtrOK p n (trS raw) j (readingByCandle (out.getD j default) nm) ∧
+      AtrOKTrue p n raw j (readingByCandle (out.getD j default) nm) :=
+  Numeric.atr_batch_readings p hp nm n hk hn raw hraw out hout
+
+/-- **… for every append schedule**: whenever a live history (construction over `init`,
+`calculate()`, then any appends) returns `snap`, `snap` carries those readings over the whole stream
+(`atr_series_readings` + `TreeSpec.live_refines` of `atrTree`). -/
+theorem atr_series_live (p : Nat) (hp : 1 ≤ p) (nm : String) (n : Nat) (hk : IsKey nm)
+    (hn : AtrNames nm) (init : List (Candle K)) (chunks : List (List (Candle K)))
+    (hraw : ∀ c ∈ init ++ chunks.flatten, Plain c) (snap : List (Candle K))
+    (hsnap : candlesOf (runIndicator (mkTop (.atr (p : Int)) nm n) {} init chunks) = .ok snap) :
+    snap.length = (init ++ chunks.flatten).length ∧
+    ∀ j, j < (init ++ chunks.flatten).length →
+      (snap.getD j default).bare = ((init ++ chunks.flatten).getD j default).bare ∧
+      readingByCandle (snap.getD j default) (nm ++ "_TR") = trStored (init ++ chunks.flatten) j ∧
+      AtrOK p n (trS (init ++ chunks.flatten)) j (readingByCandle (snap.getD j default) nm) ∧
+      AtrOKTrue p n (init ++ chunks.flatten) j (readingByCandle (snap.getD j default) nm) := by
+  obtain ⟨out, h1, h2, h3⟩ := Numeric.atr_series_readings p hp nm n hk hn _ hraw
+  have h : Gen.rowMajor (atrTree nm n (p : Int) (by omega) hn).S (init ++ chunks.flatten) = .ok snap :=
+    (atrTree nm n (p : Int) (by omega) hn).live_refines (MgrSpec.base K) init chunks hraw snap hsnap
+  rw [h1] at h
+  cases h
+  exact ⟨h2, h3⟩
+
+/-- `ATR(2)` over the demo candles: the batch run returns; `ATR_2_TR` is `None, 3, 4, 3, 0`, the
+textbook series `None, None, 7/2, 13/4, 13/8` (HexProofs/Numeric/SeriesATR.lean evaluates both) -/
+example : ∃ out : List (Candle ℚ),
+    candlesOf (runIndicator (mkTop (.atr ((2 : Nat) : Int)) "ATR_2" 4) {} demoRaw []) = .ok out ∧
+    out.length = demoRaw.length ∧
+    ∀ j, j < demoRaw.length →
+      (out.getD j default).bare = (demoRaw.getD j default).bare ∧
+      readingByCandle (out.getD j default) ("ATR_2" ++ "_TR") = trStored demoRaw j ∧
+      AtrOK 2 4 (trS demoRaw) j (readingByCandle (out.getD j default) "ATR_2") ∧
+      AtrOKTrue 2 4 demoRaw j (readingByCandle (out.getD j default) "ATR_2") := by
+  obtain ⟨vs, _, h2, _⟩ := Numeric.atr_batch 2 (by norm_num) "ATR_2" 4 (by decide) ⟨by decide, by decide⟩
+    demoRaw demoRaw_plain
+  exact ⟨_, h2, atr_batch_readings 2 (by norm_num) "ATR_2" 4 (by decide) ⟨by decide, by decide⟩
+    demoRaw demoRaw_plain _ h2⟩
+
+/-! ### STDEV (managed `name_data` series) -/
+
+/-- **STDEV, whole series** (row-major run of `stdevTree`; `period = p ≥ 1`, input a candle field;
+`SdNames`: `name`, `name_data` ordinary distinct keys).  For EVERY raw stream the run returns the
+raw candles with, on candle `j`, the pair `rows[j]` = (own reading, `name_data` entry), and every
+pair is `StdevOK`: the data entry holds EXACTLY (unrounded) the running mean / population variance
+of the zero-padded window – from index `p − 1` on the mean and `mean((x − mean)²)` of the last `p`
+inputs; the own reading is `None` up to index `p − 1` – the FIRST READING IS AT INDEX `p` – and then
+`round_n(sqrt(variance))`, within `ε_n` of the exact σ at every index (nothing rounded is fed back). -/
+theorem stdev_series (p : Nat) (hp : 1 ≤ p) (nm input : String) (fld : Candle K → Num K) (n : Nat)
+    (hn : SdNames nm) (hin : NoDot input ∧ input ∈ Candle.attrNames)
+    (hattr : ∀ c : Candle K, c.attr input = some (.num (fld c)))
+    (raw : List (Candle K)) (hraw : ∀ c ∈ raw, Plain c) :
+    ∃ rows : List (Val K × Val K), rows.length = raw.length ∧
+      Gen.rowMajor (stdevTree (F := K) nm n (p : Int) input (by omega) hin).S raw = .ok (decoSd nm raw rows) ∧
+      ∀ j, j < raw.length → StdevOK p n (fieldAt fld raw) j (rows.getD j (.none, .none)) :=
+  Numeric.stdev_series p hp nm input fld n hn hin hattr raw hraw
+
+/-- **σ ≥ 0**: every stored STDEV reading is non-negative (`sqrt ≥ 0`: `[NonnegSqrt K]`). -/
+theorem stdev_nonneg [NonnegSqrt K] {p n : Nat} {x : Nat → K} {j : Nat} {r : Val K × Val K}
+    (h : StdevOK p n x j r) (y : K) (hy : r.1 = .flt y) : 0 ≤ y :=
+  h.nonneg y hy
+
+/-- **STDEV, whole series, candle by candle** (`SdCandleOK`): the own reading follows `stdevSeries`
+(`None` before index `p`, then a non-negative float within `ε_n` of `sqrt(mean((x − mean)²))` of the
+last `p` inputs); `name_data.mean` / `name_data.variance` hold exactly the running statistics,
+which from index `p − 1` on are the window mean and population variance. -/
+theorem stdev_series_candles [NonnegSqrt K] (p : Nat) (hp : 1 ≤ p) (nm input : String) (fld : Candle K → Num K)
+    (n : Nat) (hn : SdNames nm) (hin : NoDot input ∧ input ∈ Candle.attrNames)
+    (hattr : ∀ c : Candle K, c.attr input = some (.num (fld c)))
+    (raw : List (Candle K)) (hraw : ∀ c ∈ raw, Plain c) :
+    ∃ out : List (Candle K), out.length = raw.length ∧
+      Gen.rowMajor (stdevTree (F := K) nm n (p : Int) input (by omega) hin).S raw = .ok out ∧
+      ∀ j, j < raw.length → SdCandleOK p n nm (fieldAt fld raw) j (out.getD j default) :=
+  Numeric.stdev_series_candles p hp nm input fld n hn hin hattr raw hraw
+
+/-- **… through the object**: the batch run returns exactly the candles of `stdev_series`. -/
+theorem stdev_series_batch (p : Nat) (hp : 1 ≤ p) (nm input : String) (fld : Candle K → Num K) (n : Nat)
+    (hn : SdNames nm) (hin : NoDot input ∧ input ∈ Candle.attrNames)
+    (hattr : ∀ c : Candle K, c.attr input = some (.num (fld c)))
+    (raw : List (Candle K)) (hraw : ∀ c ∈ raw, Plain c) :
+    ∃ rows : List (Val K × Val K), rows.length = raw.length ∧
+      candlesOf (runIndicator (mkTop (.stdev (p : Int) input : Kind K) nm n) {} raw []) = .ok (decoSd nm raw rows) ∧
+      ∀ j, j < raw.length → StdevOK p n (fieldAt fld raw) j (rows.getD j (.none, .none)) :=
+  Numeric.stdev_series_batch p hp nm input fld n hn hin hattr raw hraw
+
+/-- whenever the batch run returns, its candles are `SdCandleOK` -/
+theorem stdev_batch_readings [NonnegSqrt K] (p : Nat) (hp : 1 ≤ p) (nm input : String) (fld : Candle K → Num K)
+    (n : Nat) (hn : SdNames nm) (hin : NoDot input ∧ input ∈ Candle.attrNames)
+    (hattr : ∀ c : Candle K, c.attr input = some (.num (fld c)))
+    (raw : List (Candle K)) (hraw : ∀ c ∈ raw, Plain c) (out : List (Candle K))
+    (hout : candlesOf (runIndicator (mkTop (.stdev (p : Int) input : Kind K) nm n) {} raw []) = .ok out) :
+    out.length = raw.length ∧
+    ∀ j, j < raw.length → SdCandleOK p n nm (fieldAt fld raw) j (out.getD j default) :=
+  Numeric.stdev_batch_readings p hp nm input fld n hn hin hattr raw hraw out hout
+
+/-- **… for every append schedule**: whenever a live history returns, its candles are those of
+`stdev_series` over the whole stream. -/
+theorem stdev_series_live (p : Nat) (hp : 1 ≤ p) (nm input : String) (fld : Candle K → Num K) (n : Nat)
+    (hn : SdNames nm) (hin : NoDot input ∧ input ∈ Candle.attrNames)
+    (hattr : ∀ c : Candle K, c.attr input = some (.num (fld c)))
+    (init : List (Candle K)) (chunks : List (List (Candle K)))
+    (hraw : ∀ c ∈ init ++ chunks.flatten, Plain c) (snap : List (Candle K))
+    (hsnap : candlesOf (runIndicator (mkTop (.stdev (p : Int) input : Kind K) nm n) {} init chunks) = .ok snap) :
+    ∃ rows : List (Val K × Val K), rows.length = (init ++ chunks.flatten).length ∧
+      snap = decoSd nm (init ++ chunks.flatten) rows ∧
+      ∀ j, j < (init ++ chunks.flatten).length →
+        StdevOK p n (fieldAt fld (init ++ chunks.flatten)) j (rows.getD j (.none, .none)) :=
+  Numeric.stdev_series_live p hp nm input fld n hn hin hattr init chunks hraw snap hsnap
+
+/-- `STDEV(3)` on `close` over the demo candles (HexProofs/Numeric/SeriesStdevBB.lean evaluates it: no
+reading on candles 0–2; on candle 4 the data entry is `{mean: 44/3, variance: 2/9}`) -/
+example : ∃ rows : List (Val ℚ × Val ℚ), rows.length = demoRaw.length ∧
+    Gen.rowMajor (stdevTree (F := ℚ) "STDEV_3" 4 ((3 : Nat) : Int) "close" (by omega) ⟨noDot_close, by decide⟩).S
+      demoRaw = .ok (decoSd "STDEV_3" demoRaw rows) ∧
+    ∀ j, j < demoRaw.length → StdevOK 3 4 (fieldAt (·.c) demoRaw) j (rows.getD j (.none, .none)) :=
+  stdev_series 3 (by norm_num) "STDEV_3" "close" (·.c) 4 sdNames_demo ⟨noDot_close, by decide⟩
+    (fun _ => rfl) demoRaw demoRaw_plain
+
+/-! ### BBANDS (prior STDEV helper with its data series, prior SMA helper) -/
+
+/-- **BBANDS, whole series** (row-major run of `bbTree`; `period = p ≥ 2`, input a candle field;
+`BbNames`: the helper names are ordinary pairwise distinct keys).  For EVERY raw stream the run
+returns the raw candles with, on candle `j`, the row `rows[j]` = (`name_STDEV` reading, its
+`name_STDEV_data` entry, `name_SMA` reading, own dict), and every row is `BbOK`: the STDEV helper is a
+STDEV series rounded to 4 decimals (first reading at index `p`), the SMA helper an SMA series
+rounded to 4 decimals (first reading at `p − 1`, budget `(j + 2 − p)·ε₄`, growing with its running
+update), the own reading the dict `{BBL: None, BBM: None, BBU: None}` on candles `0 … p − 1` and from
+index `p` on `{BBL: round_n(m − 2s), BBM: round_n(m), BBU: round_n(m + 2s)}` of the STORED `m`, `s`. -/
+theorem bb_series (p : Nat) (hp : 2 ≤ p) (nm input : String) (fld : Candle K → Num K) (n : Nat)
+    (hn : BbNames nm) (hin : NoDot input ∧ input ∈ Candle.attrNames)
+    (hattr : ∀ c : Candle K, c.attr input = some (.num (fld c)))
+    (raw : List (Candle K)) (hraw : ∀ c ∈ raw, Plain c) :
+    ∃ rows : List (BbRow K), rows.length = raw.length ∧
+      Gen.rowMajor (bbTree (F := K) nm n (p : Int) input (by omega) hn hin).S raw = .ok (decoBb nm raw rows) ∧
+      ∀ j, j < raw.length → BbOK p n (fieldAt fld raw) j (rows.getD j BbRow.dflt) :=
+  Numeric.bb_series p hp nm input fld n hn hin hattr raw hraw
+
+/-- **the bands**: from index `p` on the own reading is a dict of three floats with
+`lower ≤ middle ≤ upper`, the middle band within `ε_n + (j + 2 − p)·ε₄` of the mean of the last `p`
+inputs and the outer bands within `ε_n + (j + 4 − p)·ε₄` of `mean ∓ 2σ`. -/
+theorem bb_bands [NonnegSqrt K] {p n : Nat} {x : Nat → K} {j : Nat} {r : BbRow K} (h : BbOK p n x j r)
+    (hj : p ≤ j) :
+    ∃ lo mid up : K, r.bb = bbDict lo mid up ∧ lo ≤ mid ∧ mid ≤ up ∧
+      |mid - winMean x p j| ≤ eps K n + ((j + 2 - p : Nat) : K) * eps K defaultRound ∧
+      |lo - (winMean x p j - 2 * sigmaExact x p j)| ≤ eps K n + (((j + 2 - p : Nat) : K) + 2) * eps K defaultRound ∧
+      |up - (winMean x p j + 2 * sigmaExact x p j)| ≤ eps K n + (((j + 2 - p : Nat) : K) + 2) * eps K defaultRound :=
+  h.bands hj
+
+/-- **… through the object**: the batch run returns exactly the candles of `bb_series`. -/
+theorem bb_series_batch (p : Nat) (hp : 2 ≤ p) (nm input : String) (fld : Candle K → Num K) (n : Nat)
+    (hn : BbNames nm) (hin : NoDot input ∧ input ∈ Candle.attrNames)
+    (hattr : ∀ c : Candle K, c.attr input = some (.num (fld c)))
+    (raw : List (Candle K)) (hraw : ∀ c ∈ raw, Plain c) :
+    ∃ rows : List (BbRow K), rows.length = raw.length ∧
+      candlesOf (runIndicator (mkTop (.bbands (p : Int) input : Kind K) nm n) {} raw []) = .ok (decoBb nm raw rows) ∧
+      ∀ j, j < raw.length → BbOK p n (fieldAt fld raw) j (rows.getD j BbRow.dflt) :=
+  Numeric.bb_series_batch p hp nm input fld n hn hin hattr raw hraw
+
+/-- whenever the batch run returns, its candles are `BbCandleOK`: the own dict follows the textbook
+bands `bbSeries` (`BbOwnOK`: dict of `None`s before index `p`, then three ordered floats within the
+budgets of `bb_bands`), the helpers are `SdCandleOK` / `SmaOK` at 4 decimals -/
+theorem bb_batch_readings [NonnegSqrt K] (p : Nat) (hp : 2 ≤ p) (nm input : String) (fld : Candle K → Num K)
+    (n : Nat) (hk : IsKey nm) (hn : BbNames nm) (hin : NoDot input ∧ input ∈ Candle.attrNames)
+    (hattr : ∀ c : Candle K, c.attr input = some (.num (fld c)))
+    (raw : List (Candle K)) (hraw : ∀ c ∈ raw, Plain c) (out : List (Candle K))
+    (hout : candlesOf (runIndicator (mkTop (.bbands (p : Int) input : Kind K) nm n) {} raw []) = .ok out) :
+    out.length = raw.length ∧
+    ∀ j, j < raw.length → BbCandleOK p n nm (fieldAt fld raw) j (out.getD j default) :=
+  Numeric.bb_batch_readings p hp nm input fld n hk hn hin hattr raw hraw out hout
+
+/-- **… for every append schedule** -/
+theorem bb_series_live (p : Nat) (hp : 2 ≤ p) (nm input : String) (fld : Candle K → Num K) (n : Nat)
+    (hn : BbNames nm) (hin : NoDot input ∧ input ∈ Candle.attrNames)
+    (hattr : ∀ c : Candle K, c.attr input = some (.num (fld c)))
+    (init : List (Candle K)) (chunks : List (List (Candle K)))
+    (hraw : ∀ c ∈ init ++ chunks.flatten, Plain c) (snap : List (Candle K))
+    (hsnap : candlesOf (runIndicator (mkTop (.bbands (p : Int) input : Kind K) nm n) {} init chunks) = .ok snap) :
+    ∃ rows : List (BbRow K), rows.length = (init ++ chunks.flatten).length ∧
+      snap = decoBb nm (init ++ chunks.flatten) rows ∧
+      ∀ j, j < (init ++ chunks.flatten).length →
+        BbOK p n (fieldAt fld (init ++ chunks.flatten)) j (rows.getD j BbRow.dflt) :=
+  Numeric.bb_series_live p hp nm input fld n hn hin hattr init chunks hraw snap hsnap
+
+/-- `BBANDS(3)` on `close` over the demo candles (SeriesStdevBB.lean: dict of `None`s on candle 2 although
+the SMA helper already has a value; on candle 4 three ordered floats, middle within `ε₄ + 3·ε₄` of `44/3`) -/
+example : ∃ rows : List (BbRow ℚ), rows.length = demoRaw.length ∧
+    Gen.rowMajor (bbTree (F := ℚ) "BB_3" 4 ((3 : Nat) : Int) "close" (by omega) bbNames_demo ⟨noDot_close, by decide⟩).S
+      demoRaw = .ok (decoBb "BB_3" demoRaw rows) ∧
+    ∀ j, j < demoRaw.length → BbOK 3 4 (fieldAt (·.c) demoRaw) j (rows.getD j BbRow.dflt) :=
+  bb_series 3 (by norm_num) "BB_3" "close" (·.c) 4 bbNames_demo ⟨noDot_close, by decide⟩
+    (fun _ => rfl) demoRaw demoRaw_plain
+
+/-! ### Keltner Channel (prior ATR helper with its TR helper, prior EMA helper) -/
+
+/-- **KC, whole series, reading by reading** (row-major run of `kcTree`; `period = p ≥ 2`, input a
+candle field, any multiplier; `KcNames`).  For every raw stream the run returns a list that is
+`KcSeriesOK`: same length, candle `j` is raw candle `j` carrying
+* `name_ATR_TR` = `trStored` (`None` on candle 0, then the true range at 4 decimals);
+* `name_ATR`: `AtrOK` at 4 decimals – `None` for `j < p`, FIRST READING AT `p`, `≥ 0`, within `p·ε₄` of
+  Wilder's average of the stored true ranges (`AtrOKTrue`: `+ ε₄` against the exact ones);
+* `name_EMA`: `RecOK` – `None` for `j + 1 < p`, first reading at `p − 1`, within `ε₄/α` of the textbook
+  EMA `emaExact`, `α = 2/(p+1)`;
+* `name` = `kcBands` of those two STORED readings: the three-`None` dict for `j < p`, then
+  `{lower: round_n(E − m·A), band: round_n(E), upper: round_n(E + m·A)}`, which is `KcOwnOK` against the
+  textbook channel `kcSeries`: `|band − EMA| ≤ ε_n + ε₄/α`, `|lower/upper − (EMA ∓ m·ATR)| ≤ ε_n + ε₄/α +
+  |m|·p·ε₄` (stored true ranges; `+ |m|·ε₄` for the exact ones), and `lower ≤ band ≤ upper` if `m ≥ 0`. -/
+theorem kc_series_readings (p : Nat) (hp : 2 ≤ p) (nm input : String) (fld : Candle K → Num K) (n : Nat)
+    (mult : Num K) (hk : IsKey nm) (hn : KcNames nm) (hin : NoDot input ∧ input ∈ Candle.attrNames)
+    (hattr : ∀ c : Candle K, c.attr input = some (.num (fld c)))
+    (raw : List (Candle K)) (hraw : ∀ c ∈ raw, Plain c) :
+    ∃ out : List (Candle K),
+      Gen.rowMajor (kcTree (F := K) nm n (p : Int) input mult (by omega) hn hin).S raw = .ok out ∧
+      KcSeriesOK p n mult nm fld raw out :=
+  Numeric.kc_series_readings p hp nm input fld n mult hk hn hin hattr raw hraw
+
+/-- **… through the object**: the batch run returns, and its candles are `KcSeriesOK`. -/
+theorem kc_batch (p : Nat) (hp : 2 ≤ p) (nm input : String) (fld : Candle K → Num K) (n : Nat)
+    (mult : Num K) (hk : IsKey nm) (hn : KcNames nm) (hin : NoDot input ∧ input ∈ Candle.attrNames)
+    (hattr : ∀ c : Candle K, c.attr input = some (.num (fld c)))
+    (raw : List (Candle K)) (hraw : ∀ c ∈ raw, Plain c) :
+    ∃ out : List (Candle K),
+      candlesOf (runIndicator (mkTop (.kc (p : Int) input mult : Kind K) nm n) {} raw []) = .ok out ∧
+      KcSeriesOK p n mult nm fld raw out :=
+  Numeric.kc_batch p hp nm input fld n mult hk hn hin hattr raw hraw
+
+/-- whenever the batch run returns, its candles are `KcSeriesOK` -/
+theorem kc_batch_readings (p : Nat) (hp : 2 ≤ p) (nm input : String) (fld : Candle K → Num K) (n : Nat)
+    (mult : Num K) (hk : IsKey nm) (hn : KcNames nm) (hin : NoDot input ∧ input ∈ Candle.attrNames)
+    (hattr : ∀ c : Candle K, c.attr input = some (.num (fld c)))
+    (raw : List (Candle K)) (hraw : ∀ c ∈ raw, Plain c) (out : List (Candle K))
+    (hout : candlesOf (runIndicator (mkTop (.kc (p : Int) input mult : Kind K) nm n) {} raw []) = .ok out) :
+    KcSeriesOK p n mult nm fld raw out :=
+  Numeric.kc_batch_readings p hp nm input fld n mult hk hn hin hattr raw hraw out hout
+
+/-- **… for every append schedule**: whenever a live history returns, its candles are `KcSeriesOK`
+over the whole stream. -/
+theorem kc_live (p : Nat) (hp : 2 ≤ p) (nm input : String) (fld : Candle K → Num K) (n : Nat)
+    (mult : Num K) (hk : IsKey nm) (hn : KcNames nm) (hin : NoDot input ∧ input ∈ Candle.attrNames)
+    (hattr : ∀ c : Candle K, c.attr input = some (.num (fld c)))
+    (init : List (Candle K)) (chunks : List (List (Candle K)))
+    (hraw : ∀ c ∈ init ++ chunks.flatten, Plain c) (snap : List (Candle K))
+    (hsnap : candlesOf (runIndicator (mkTop (.kc (p : Int) input mult : Kind K) nm n) {} init chunks) = .ok snap) :
+    KcSeriesOK p n mult nm fld (init ++ chunks.flatten) snap :=
+  Numeric.kc_live p hp nm input fld n mult hk hn hin hattr init chunks hraw snap hsnap
+
+/-- `KC(2)` on `close`, multiplier 2, over the demo candles (SeriesKC.lean evaluates it: the
+three-`None` dict on candles 0, 1 – on candle 1 the EMA helper already has a reading –, an ordered
+triple on candle 2 with `|band − 79/6| ≤ ε₄ + ε₄/(2/3)`) -/
+example : ∃ out : List (Candle ℚ),
+    candlesOf (runIndicator (mkTop (.kc ((2 : Nat) : Int) "close" (fl 2) : Kind ℚ) "KC_2" 4) {} demoRaw [])
+      = .ok out ∧ KcSeriesOK 2 4 (fl 2) "KC_2" (·.c) demoRaw out :=
+  kc_batch 2 (by norm_num) "KC_2" "close" (·.c) 4 (fl 2) (by decide) kcNames_demo ⟨noDot_close, by decide⟩
+    (fun _ => rfl) demoRaw demoRaw_plain
+
+/-! ### Supertrend (prior ATR and HL2 helpers, managed `name_data` series) -/
+
+/-- **Supertrend, whole series** (row-major run of `stTree`; ATR period `p ≥ 1`, any multiplier;
+`StNames`).  For EVERY raw stream the run returns the raw candles finished with rows `rows[j]` that
+are `StRowOK`: the helper columns are `trStored` (`None` on candle 0), `stAtrStored` (`None` before
+index `p`, then `stAtr`: Wilder's average of the stored true ranges rounded to 4 decimals at every
+step) and `hl2Stored` (`round₄((high+low)/2)`); own reading and `name_data` entry follow the textbook
+state machine `stSeries` run on those STORED helper readings and the raw closes (`StOK`: no state and
+`stNoneDict` before index `p`; then the data entry holds the machine's bands EXACTLY and the own
+reading is `stDict direction upper lower` rounded to `n` decimals). -/
+theorem st_series (p : Nat) (hp : 1 ≤ p) (nm input : String) (mult : Num K) (n : Nat) (hn : StNames nm)
+    (raw : List (Candle K)) (hraw : ∀ c ∈ raw, Plain c) :
+    ∃ rows : List (StRow K), rows.length = raw.length ∧
+      Gen.rowMajor (stTree (F := K) nm n (p : Int) input mult (by omega) hn).S raw = .ok (decoSt nm raw rows) ∧
+      ∀ j, j < raw.length → StRowOK p n mult.toF raw j (rows.getD j StRow.dflt) :=
+  Numeric.st_series p hp nm input mult n hn raw hraw
+
+/-- **Supertrend, whole series, candle by candle** (`StCandleOK`): candle `j` is raw candle `j` with
+the three helper readings as above, `name_data.upper` / `name_data.lower` EXACTLY the bands of
+`stSeries` (nothing before index `p`), and under `name` the reading `stDict direction U L` with
+`U`, `L` within `ε_n` of those bands and the direction exact (`stNoneDict` before index `p`). -/
+theorem st_series_candles (p : Nat) (hp : 1 ≤ p) (nm input : String) (mult : Num K) (n : Nat)
+    (hn : StNames nm) (hk : IsKey nm) (raw : List (Candle K)) (hraw : ∀ c ∈ raw, Plain c) :
+    ∃ out : List (Candle K), out.length = raw.length ∧
+      Gen.rowMajor (stTree (F := K) nm n (p : Int) input mult (by omega) hn).S raw = .ok out ∧
+      ∀ j, j < raw.length → StCandleOK p n mult.toF nm raw j (out.getD j default) :=
+  Numeric.st_series_candles p hp nm input mult n hn hk raw hraw
+
+/-- **… through the object**: the batch run returns, and its candles are `StCandleOK`. -/
+theorem st_series_batch (p : Nat) (hp : 1 ≤ p) (nm input : String) (mult : Num K) (n : Nat)
+    (hn : StNames nm) (hk : IsKey nm) (raw : List (Candle K)) (hraw : ∀ c ∈ raw, Plain c) :
+    ∃ out : List (Candle K), out.length = raw.length ∧
+      candlesOf (runIndicator (mkTop (.supertrend (p : Int) input mult : Kind K) nm n) {} raw []) = .ok out ∧
+      ∀ j, j < raw.length → StCandleOK p n mult.toF nm raw j (out.getD j default) :=
+  Numeric.st_series_batch p hp nm input mult n hn hk raw hraw
+
+/-- whenever the batch run returns, its candles are `StCandleOK` -/
+theorem st_batch_readings (p : Nat) (hp : 1 ≤ p) (nm input : String) (mult : Num K) (n : Nat)
+    (hn : StNames nm) (hk : IsKey nm) (raw : List (Candle K)) (hraw : ∀ c ∈ raw, Plain c)
+    (out : List (Candle K))
+    (hout : candlesOf (runIndicator (mkTop (.supertrend (p : Int) input mult : Kind K) nm n) {} raw []) = .ok out) :
+    out.length = raw.length ∧
+    ∀ j, j < raw.length → StCandleOK p n mult.toF nm raw j (out.getD j default) :=
+  Numeric.st_batch_readings p hp nm input mult n hn hk raw hraw out hout
+
+/-- **… for every append schedule** -/
+theorem st_series_live (p : Nat) (hp : 1 ≤ p) (nm input : String) (mult : Num K) (n : Nat)
+    (hn : StNames nm) (hk : IsKey nm) (init : List (Candle K)) (chunks : List (List (Candle K)))
+    (hraw : ∀ c ∈ init ++ chunks.flatten, Plain c) (snap : List (Candle K))
+    (hsnap : candlesOf (runIndicator (mkTop (.supertrend (p : Int) input mult : Kind K) nm n) {} init chunks) = .ok snap) :
+    snap.length = (init ++ chunks.flatten).length ∧
+    ∀ j, j < (init ++ chunks.flatten).length →
+      StCandleOK p n mult.toF nm (init ++ chunks.flatten) j (snap.getD j default) :=
+  Numeric.st_series_live p hp nm input mult n hn hk init chunks hraw snap hsnap
+
+/-- the stored ATR helper column of a Supertrend is `AtrOK` at 4 decimals: `None` before index `p`,
+then non-negative and within `p·ε₄` of Wilder's average of the stored true ranges – although it is
+re-rounded at every step the budget does not grow -/
+theorem st_atr_budget (p : Nat) (hp : 1 ≤ p) (raw : List (Candle K)) (j : Nat) :
+    AtrOK p defaultRound (trS raw) j (stAtrStored p raw j) :=
+  stAtrStored_ok p hp raw j
+
+/-- **direction**: every state of the series has direction `1` or `−1` -/
+theorem st_dir (p : Nat) (mult : K) (raw : List (Candle K)) (j : Nat) (s : StState K)
+    (h : stSeries p mult raw j = some s) : s.dir = 1 ∨ s.dir = -1 :=
+  stSeries_dir p mult raw j s h
+
+/-- **the direction flips exactly when the close breaks the previous ACTIVE band**, along the whole
+series: out of an up-trend iff `close < previous lower`, out of a down-trend iff
+`previous upper < close` -/
+theorem st_flip (p : Nat) (mult : K) (raw : List (Candle K)) (j : Nat) (s s' : StState K)
+    (hj : p ≤ j) (hs : stSeries p mult raw j = some s) (hs' : stSeries p mult raw (j + 1) = some s') :
+    (s.dir = 1 → (s'.dir = -1 ↔ fieldAt (·.c) raw (j + 1) < s.lower)) ∧
+    (s.dir = -1 → (s'.dir = 1 ↔ s.upper < fieldAt (·.c) raw (j + 1))) :=
+  stSeries_flip p mult raw j s s' hj hs hs'
+
+/-- **ratchet**: while the close stays between the previous bands the direction is kept, the lower
+band of an up-trend does not drop and the upper band of a down-trend does not rise.  (When the close
+is beyond the IDLE band the library resets both bands without ratcheting, so the hypothesis is
+needed – counterexample in SeriesSupertrend.lean.) -/
+theorem st_ratchet (p : Nat) (mult : K) (raw : List (Candle K)) (j : Nat) (s s' : StState K)
+    (hj : p ≤ j) (hs : stSeries p mult raw j = some s) (hs' : stSeries p mult raw (j + 1) = some s')
+    (h1 : ¬ s.upper < fieldAt (·.c) raw (j + 1)) (h2 : ¬ fieldAt (·.c) raw (j + 1) < s.lower) :
+    s'.dir = s.dir ∧ (s.dir = 1 → s.lower ≤ s'.lower) ∧ (s.dir = -1 → s'.upper ≤ s.upper) :=
+  stSeries_ratchet p mult raw j s s' hj hs hs' h1 h2
+
+/-- `Supertrend(2, 3)` over the demo candles (SeriesSupertrend.lean evaluates the textbook series: no state
+on candles 0, 1; `(1, 23.5, 2.5)`, `(1, 24.25, 4.75)`, `(1, 19.875, 10.125)` on candles 2, 3, 4) -/
+example : ∃ out : List (Candle ℚ), out.length = demoRaw.length ∧
+    candlesOf (runIndicator (mkTop (.supertrend ((2 : Nat) : Int) "close" (.int 3) : Kind ℚ) "ST_2" 4) {} demoRaw [])
+      = .ok out ∧
+    ∀ j, j < demoRaw.length → StCandleOK 2 4 (Num.int 3 : Num ℚ).toF "ST_2" demoRaw j (out.getD j default) :=
+  st_series_batch 2 (by norm_num) "ST_2" "close" (.int 3) 4 stNames_demo (by decide) demoRaw demoRaw_plain
+
+/-! ### Donchian, HighestLowest (window extremes) -/
+
+/-- **Donchian, whole series**, `period = p ≥ 2` (`DcNames`: an ordinary key whose `DCU` field is a
+dotted name).  `DcOK`: all fields `None` up to index `p − 2`, FIRST READING AT INDEX `p − 1`; window =
+the last `p` candles; `DCL` / `DCU` are the low / high of two candles of the window, with their type
+(an int stays an int, a float is rounded), whose values are the lowest low / highest high of the
+window; `DCM = round_n` of the mean of the two UNROUNDED bounds. -/
+theorem donchian_series (p : Nat) (hp : 2 ≤ p) (nm : String) (n : Nat) (hn : DcNames nm)
+    (raw : List (Candle K)) (hraw : ∀ c ∈ raw, Plain c) :
+    ∃ vs : List (Val K), vs.length = raw.length ∧
+      rowMajor (mkTop (.donchian p) nm n) raw = .ok (deco nm raw vs) ∧
+      ∀ j, j < raw.length → DcOK p n (numAt (·.h) raw) (numAt (·.l) raw) j (vs.getD j .none) :=
+  Numeric.donchian_series p hp nm n hn raw hraw
+
+/-- **Donchian, field by field** (from index `p − 1` on): `DCL` / `DCU` within `ε_n` of the lowest
+low / highest high of the last `p` candles (exactly equal for int prices), `DCM` within `ε_n` of
+their mean; the exact channel encloses the candle's own low and high. -/
+theorem donchian_near (p n : Nat) (hN lN : Nat → Num K) (j : Nat) (v : Val K) (h : DcOK p n hN lN j v)
+    (hj : p ≤ j + 1) :
+    NumNear n (winMin (fun k => (lN k).toF) j (p - 1)) (v.nested "DCL") ∧
+    NumNear n (winMax (fun k => (hN k).toF) j (p - 1)) (v.nested "DCU") ∧
+    NumNear n ((winMax (fun k => (hN k).toF) j (p - 1) + winMin (fun k => (lN k).toF) j (p - 1)) / 2)
+      (v.nested "DCM") ∧
+    winMin (fun k => (lN k).toF) j (p - 1) ≤ (lN j).toF ∧ (hN j).toF ≤ winMax (fun k => (hN k).toF) j (p - 1) :=
+  dcOK_near p n hN lN j v h hj
+
+/-- **… through the engine and the object** -/
+theorem donchian_series_batch (p : Nat) (hp : 2 ≤ p) (nm : String) (n : Nat) (hn : DcNames nm)
+    (raw : List (Candle K)) (hraw : ∀ c ∈ raw, Plain c) :
+    ∃ vs : List (Val K), vs.length = raw.length ∧
+      engineCalc (mkTop (.donchian p : Kind K) nm n) raw = .ok (deco nm raw vs) ∧
+      candlesOf (runIndicator (mkTop (.donchian p : Kind K) nm n) {} raw []) = .ok (deco nm raw vs) ∧
+      ∀ j, j < raw.length → DcOK p n (numAt (·.h) raw) (numAt (·.l) raw) j (vs.getD j .none) :=
+  Numeric.donchian_series_batch p hp nm n hn raw hraw
+
+/-- **… for every append schedule** -/
+theorem donchian_series_live (p : Nat) (hp : 2 ≤ p) (nm : String) (n : Nat) (hn : DcNames nm)
+    (init : List (Candle K)) (chunks : List (List (Candle K)))
+    (hraw : ∀ c ∈ init ++ chunks.flatten, Plain c) (snap : List (Candle K))
+    (hsnap : candlesOf (runIndicator (mkTop (.donchian p : Kind K) nm n) {} init chunks) = .ok snap) :
+    ∃ vs : List (Val K), vs.length = (init ++ chunks.flatten).length ∧
+      snap = deco nm (init ++ chunks.flatten) vs ∧
+      ∀ j, j < (init ++ chunks.flatten).length →
+        DcOK p n (numAt (·.h) (init ++ chunks.flatten)) (numAt (·.l) (init ++ chunks.flatten)) j (vs.getD j .none) :=
+  Numeric.donchian_series_live p hp nm n hn init chunks hraw snap hsnap
+
+/-- **HighestLowest, whole series**, `period = p ≥ 1`.  `HlOK`: NO warm-up – a reading on every
+candle from index 0; window = the last `p + 1` candles, cut at candle 0; `low` / `high` are the low /
+high of two candles of the window with their type, whose values are the lowest low / highest high. -/
+theorem hl_series (p : Nat) (hp : 1 ≤ p) (nm : String) (n : Nat)
+    (raw : List (Candle K)) (hraw : ∀ c ∈ raw, Plain c) :
+    ∃ vs : List (Val K), vs.length = raw.length ∧
+      rowMajor (mkTop (.hl p) nm n) raw = .ok (deco nm raw vs) ∧
+      ∀ j, j < raw.length → HlOK p n (numAt (·.h) raw) (numAt (·.l) raw) j (vs.getD j .none) :=
+  Numeric.hl_series p hp nm n raw hraw
+
+/-- **HighestLowest, field by field**: `low` / `high` within `ε_n` of the lowest low / highest high of
+the window (exactly equal for int prices); the window encloses the candle's own low and high. -/
+theorem hl_near (p n : Nat) (hN lN : Nat → Num K) (j : Nat) (v : Val K) (h : HlOK p n hN lN j v) :
+    NumNear n (winMin (fun k => (lN k).toF) j p) (v.nested "low") ∧
+    NumNear n (winMax (fun k => (hN k).toF) j p) (v.nested "high") ∧
+    winMin (fun k => (lN k).toF) j p ≤ (lN j).toF ∧ (hN j).toF ≤ winMax (fun k => (hN k).toF) j p :=
+  hlOK_near p n hN lN j v h
+
+/-- **… through the engine and the object** -/
+theorem hl_series_batch (p : Nat) (hp : 1 ≤ p) (nm : String) (n : Nat)
+    (raw : List (Candle K)) (hraw : ∀ c ∈ raw, Plain c) :
+    ∃ vs : List (Val K), vs.length = raw.length ∧
+      engineCalc (mkTop (.hl p : Kind K) nm n) raw = .ok (deco nm raw vs) ∧
+      candlesOf (runIndicator (mkTop (.hl p : Kind K) nm n) {} raw []) = .ok (deco nm raw vs) ∧
+      ∀ j, j < raw.length → HlOK p n (numAt (·.h) raw) (numAt (·.l) raw) j (vs.getD j .none) :=
+  Numeric.hl_series_batch p hp nm n raw hraw
+
+/-- **… for every append schedule** -/
+theorem hl_series_live (p : Nat) (hp : 1 ≤ p) (nm : String) (n : Nat)
+    (init : List (Candle K)) (chunks : List (List (Candle K)))
+    (hraw : ∀ c ∈ init ++ chunks.flatten, Plain c) (snap : List (Candle K))
+    (hsnap : candlesOf (runIndicator (mkTop (.hl p : Kind K) nm n) {} init chunks) = .ok snap) :
+    ∃ vs : List (Val K), vs.length = (init ++ chunks.flatten).length ∧
+      snap = deco nm (init ++ chunks.flatten) vs ∧
+      ∀ j, j < (init ++ chunks.flatten).length →
+        HlOK p n (numAt (·.h) (init ++ chunks.flatten)) (numAt (·.l) (init ++ chunks.flatten)) j (vs.getD j .none) :=
+  Numeric.hl_series_live p hp nm n init chunks hraw snap hsnap
+
+/-- `DONCHIAN(3)` and `HL(2)` over the demo candles (SeriesWindows.lean evaluates the last index: window =
+candles 2, 3, 4, highest high 16, lowest low 11) -/
+example : ∃ vs : List (Val ℚ), vs.length = demoRaw.length ∧
+    engineCalc (mkTop (.donchian ((3 : Nat) : Int) : Kind ℚ) "DONCHIAN_3" 4) demoRaw = .ok (deco "DONCHIAN_3" demoRaw vs) ∧
+    candlesOf (runIndicator (mkTop (.donchian ((3 : Nat) : Int) : Kind ℚ) "DONCHIAN_3" 4) {} demoRaw [])
+      = .ok (deco "DONCHIAN_3" demoRaw vs) ∧
+    ∀ j, j < demoRaw.length → DcOK 3 4 (numAt (·.h) demoRaw) (numAt (·.l) demoRaw) j (vs.getD j .none) :=
+  donchian_series_batch 3 (by norm_num) "DONCHIAN_3" 4 dcNames_demo demoRaw demoRaw_plain
+
+example : ∃ vs : List (Val ℚ), vs.length = demoRaw.length ∧
+    engineCalc (mkTop (.hl ((2 : Nat) : Int) : Kind ℚ) "HL_2" 4) demoRaw = .ok (deco "HL_2" demoRaw vs) ∧
+    candlesOf (runIndicator (mkTop (.hl ((2 : Nat) : Int) : Kind ℚ) "HL_2" 4) {} demoRaw []) = .ok (deco "HL_2" demoRaw vs) ∧
+    ∀ j, j < demoRaw.length → HlOK 2 4 (numAt (·.h) demoRaw) (numAt (·.l) demoRaw) j (vs.getD j .none) :=
+  hl_series_batch 2 (by norm_num) "HL_2" 4 demoRaw demoRaw_plain
+
+/-! ### Counter (every float carrier), STDEV threshold -/
+
+/-- **Counter, whole series, ANY input column, every carrier `[PyF F]`** (hence also the executed
+`Float`).  For EVERY candle list – no condition: the candles may already carry other indicators'
+readings, the input may be any reading name, present or missing – the row-major run returns, and the
+reading on candle `j` is the Python int `runLen cv col j` (`col i` = what `reading(input)` returns on
+candle `i`): first reading at index 0, never `None`, never rounded. -/
+theorem counter_series_col {F : Type} [PyF F] (nm input : String) (cv : Scalar F) (n : Nat) (hk : IsKey nm)
+    (raw : List (Candle F)) :
+    ∃ vs : List (Val F), vs.length = raw.length ∧
+      rowMajor (mkTop (.counter input cv) nm n) raw = .ok (deco nm raw vs) ∧
+      ∀ j, j < raw.length →
+        CountOK cv (fun i => readingByCandle (raw.getD i default) input) j (vs.getD j .none) :=
+  Numeric.counter_series_col nm input cv n hk raw
+
+/-- **the run length grows by one, stays (missing input only) or resets to 0** from each candle to
+the next -/
+theorem counter_steps {F : Type} [PyF F] (cv : Scalar F) (r : Nat → Val F) (j : Nat) :
+    ((r (j + 1)).isNone = true ∧ runLen cv r (j + 1) = runLen cv r j) ∨
+    ((r (j + 1)).isNone = false ∧ Calc.pyEqScalarVal cv (r (j + 1)) = true ∧ runLen cv r (j + 1) = runLen cv r j + 1) ∨
+    ((r (j + 1)).isNone = false ∧ Calc.pyEqScalarVal cv (r (j + 1)) = false ∧ runLen cv r (j + 1) = 0) :=
+  runLen_succ_cases cv r j
+
+/-- **Counter over a candle field, for every append schedule** (the batch run is `chunks = []`): the
+run RETURNS, and its candles are the raw candles with the run length of the field's values equal to
+the counted value. -/
+theorem counter_series_live {F : Type} [PyF F] (nm input : String) (fld : Candle F → Num F) (cv : Scalar F)
+    (n : Nat) (hk : IsKey nm) (hin : AttrInput input) (hattr : ∀ c : Candle F, c.attr input = some (.num (fld c)))
+    (init : List (Candle F)) (chunks : List (List (Candle F)))
+    (hraw : ∀ c ∈ init ++ chunks.flatten, Plain c) :
+    ∃ vs : List (Val F), vs.length = (init ++ chunks.flatten).length ∧
+      candlesOf (runIndicator (mkTop (.counter input cv) nm n) {} init chunks)
+        = .ok (deco nm (init ++ chunks.flatten) vs) ∧
+      ∀ j, j < (init ++ chunks.flatten).length →
+        CountOK cv (fun i => .num (fld ((init ++ chunks.flatten).getD i default))) j (vs.getD j .none) :=
+  Numeric.counter_series_live nm input fld cv n hk hin hattr init chunks hraw
+
+/-- counting closes equal to 15 over the demo candles: the run lengths are `0, 0, 0, 1, 2`
+(SeriesUtility.lean; there also a column with missing inputs and the `Float` instance) -/
+example : ∃ vs : List (Val ℚ), vs.length = demoRaw.length ∧
+    candlesOf (runIndicator (mkTop (.counter "close" (.num (.int 15))) "COUNT_close" 4) {} demoRaw [])
+      = .ok (deco "COUNT_close" demoRaw vs) ∧
+    ∀ j, j < demoRaw.length →
+      CountOK (.num (.int 15)) (fun i => .num ((demoRaw.getD i default).c)) j (vs.getD j .none) := by
+  have := counter_series_live "COUNT_close" "close" (·.c) (.num (.int 15)) 4 (by decide)
+    ⟨noDot_close, by decide⟩ (fun _ => rfl) demoRaw [] (by simpa using demoRaw_plain)
+  simpa using this
+
+example : (List.range 5).map (runLen (F := ℚ) (.num (.int 15)) (fun i => .num ((demoRaw.getD i default).c)))
+    = [0, 0, 0, 1, 2] := by decide
+
+/-- **STDEV threshold, whole series** (row-major run of `thresTree`; `period = p ≥ 1`, input a candle
+field, any multiplier; `ThresNames`).  For EVERY raw stream the run returns the raw candles with rows
+`rows[j]` = (`name_stdev` reading, its data entry, own bool) that are `ThOK`: the helper is a STDEV
+series at 4 decimals (first reading at index `p`); the own reading is the bool `False` on candles
+`0 … p − 1` (never `None`) and from index `p` on EXACTLY `σ_stored·m < |x_j − x_{j−1}|` on the STORED
+`σ_stored = round₄(σ)` – a bool is not rounded, the only rounding point is the helper's. -/
+theorem thres_series (p : Nat) (hp : 1 ≤ p) (nm input : String) (fld : Candle K → Num K) (mult : Num K) (n : Nat)
+    (hn : ThresNames nm) (hin : NoDot input ∧ input ∈ Candle.attrNames)
+    (hattr : ∀ c : Candle K, c.attr input = some (.num (fld c)))
+    (raw : List (Candle K)) (hraw : ∀ c ∈ raw, Plain c) :
+    ∃ rows : List (ThRow K), rows.length = raw.length ∧
+      Gen.rowMajor (thresTree (F := K) nm n (p : Int) input mult (by omega) hn hin).S raw = .ok (decoTh nm raw rows) ∧
+      ∀ j, j < raw.length → ThOK p mult.toF (fieldAt fld raw) j (rows.getD j ThRow.dflt) :=
+  Numeric.thres_series p hp nm input fld mult n hn hin hattr raw hraw
+
+/-- **the stored flag equals the textbook flag** `thresSeries` (strict comparison on the EXACT σ)
+whenever the two sides of the comparison differ by more than `|m|·ε₄`; before index `p` both are
+`False` unconditionally.  (`ThOK.exact_sides`, `ThOK.disagree_band`: the one-sided forms.) -/
+theorem thres_agree {p : Nat} {mult : K} {x : Nat → K} {j : Nat} {r : ThRow K}
+    (h : ThOK p mult x j r)
+    (hgap : p ≤ j → |mult| * eps K defaultRound < |(|x j - x (j - 1)| - sigmaExact x p j * mult)|) :
+    r.th = .bool (thresSeries p mult x j) :=
+  h.agree hgap
+
+/-- whenever the batch run returns (it does: `Numeric.thres_series_batch`), its candles are
+`ThCandleOK`: helper entries `SdCandleOK` at 4 decimals, own reading a bool as above -/
+theorem thres_batch_readings [NonnegSqrt K] (p : Nat) (hp : 1 ≤ p) (nm input : String) (fld : Candle K → Num K)
+    (mult : Num K) (n : Nat) (hk : IsKey nm) (hn : ThresNames nm) (hin : NoDot input ∧ input ∈ Candle.attrNames)
+    (hattr : ∀ c : Candle K, c.attr input = some (.num (fld c)))
+    (raw : List (Candle K)) (hraw : ∀ c ∈ raw, Plain c) (out : List (Candle K))
+    (hout : candlesOf (runIndicator (mkTop (.stdevthres (p : Int) input mult : Kind K) nm n) {} raw []) = .ok out) :
+    out.length = raw.length ∧
+    ∀ j, j < raw.length → ThCandleOK p nm mult.toF (fieldAt fld raw) j (out.getD j default) :=
+  Numeric.thres_batch_readings p hp nm input fld mult n hk hn hin hattr raw hraw out hout
+
+/-- **… for every append schedule** -/
+theorem thres_series_live (p : Nat) (hp : 1 ≤ p) (nm input : String) (fld : Candle K → Num K) (mult : Num K)
+    (n : Nat) (hn : ThresNames nm) (hin : NoDot input ∧ input ∈ Candle.attrNames)
+    (hattr : ∀ c : Candle K, c.attr input = some (.num (fld c)))
+    (init : List (Candle K)) (chunks : List (List (Candle K)))
+    (hraw : ∀ c ∈ init ++ chunks.flatten, Plain c) (snap : List (Candle K))
+    (hsnap : candlesOf (runIndicator (mkTop (.stdevthres (p : Int) input mult : Kind K) nm n) {} init chunks) = .ok snap) :
+    ∃ rows : List (ThRow K), rows.length = (init ++ chunks.flatten).length ∧
+      snap = decoTh nm (init ++ chunks.flatten) rows ∧
+      ∀ j, j < (init ++ chunks.flatten).length →
+        ThOK p mult.toF (fieldAt fld (init ++ chunks.flatten)) j (rows.getD j ThRow.dflt) :=
+  Numeric.thres_series_live p hp nm input fld mult n hn hin hattr init chunks hraw snap hsnap
+
+/-- `STDEVTHRES(3)` on `close`, multiplier 1, over the demo candles (SeriesUtility.lean evaluates it: `False`
+on candle 2 – warm-up – and on candle 4, close unchanged) -/
+example : ∃ rows : List (ThRow ℚ), rows.length = demoRaw.length ∧
+    Gen.rowMajor (thresTree (F := ℚ) "STDEVTHRES_3" 4 ((3 : Nat) : Int) "close" (fl 1) (by omega) thresNames_demo
+      ⟨noDot_close, by decide⟩).S demoRaw = .ok (decoTh "STDEVTHRES_3" demoRaw rows) ∧
+    ∀ j, j < demoRaw.length →
+      ThOK 3 (fl 1 : Num ℚ).toF (fieldAt (·.c) demoRaw) j (rows.getD j ThRow.dflt) :=
+  thres_series 3 (by norm_num) "STDEVTHRES_3" "close" (·.c) (fl 1) 4 thresNames_demo ⟨noDot_close, by decide⟩
+    (fun _ => rfl) demoRaw demoRaw_plain
+
+/-! ## the former full statement (now a theorem) and what is still open -/
+
+/-- The former open statement of this file, for ATR, CORRECTED in two places and now PROVED
+(`C05_FULL_holds`): for every raw stream and `period = p ≥ 1` (it was `≥ 2`; `1` is covered) the ENGINE
+`calculate()` never raises and stores `None` on the first `p` candles (TR needs a previous close, so
+ATR's first reading is at index `p`) and afterwards a non-negative float close to Wilder's average
+of the true ranges seeded by the mean of the first `p` of them (`atrExact p (trExact raw)`; by
+`Numeric.atrExact_eq_shift` this is the series the earlier version wrote with shifted inputs).
+Corrections (both reported by the proof of `Numeric.atr_series`):
+* the budget: the earlier version claimed `ε_n/(1/p) = p·ε_n` against the EXACT true ranges.  That is
+  not what the library computes: ATR reads the `name_TR` helper's STORED readings, which the engine
+  has rounded to 4 decimals whatever `n` is, so what holds (and is proved) is `p·ε_n + ε₄`
+  (`AtrOKTrue`; `p·ε_n` holds against the stored true ranges, `AtrOK`, see `atr_engine_readings`);
+* the fuel: the earlier version ran `calculate (fuelFor raw)`; the object's `calculate()` is
+  `engineCalc ind cs = calculate (fuelFor cs + 1) ind cs` (`IndState.calculate_engine`);
+and the helper name must be an ordinary key different from the name (`AtrNames`; true of every
+shipped default name, e.g. `"ATR_2"`). -/
 def C05_FULL : Prop :=
   ∀ (K : Type) [Field K] [LinearOrder K] [IsStrictOrderedRing K] [LawfulPyF K]
     (p : Nat) (nm : String) (n : Nat) (raw : List (Candle K)),
-    2 ≤ p → IsKey nm → (∀ c ∈ raw, Plain c) →
-    ∃ out : List (Candle K), calculate (fuelFor raw) (mkTop (.atr p) nm n) raw = .ok out ∧
+    1 ≤ p → IsKey nm → AtrNames nm → (∀ c ∈ raw, Plain c) →
+    ∃ out : List (Candle K), engineCalc (mkTop (.atr (p : Int)) nm n) raw = .ok out ∧
       out.length = raw.length ∧
-      ∀ j, j < raw.length →
-        RecOK (p + 1) n (1 / (p : K))
-          (fun t => recExact (1 / (p : K))
-            (winMean (fun i => trAt (fieldAt (·.h) raw) (fieldAt (·.l) raw) (fieldAt (·.c) raw) (i + 1)) p (p - 1))
-            (fun i => trAt (fieldAt (·.h) raw) (fieldAt (·.l) raw) (fieldAt (·.c) raw) (i + 1)) p (t - 1))
-          j (readingByCandle (out.getD j default) nm)
+      ∀ j, j < raw.length → AtrOKTrue p n raw j (readingByCandle (out.getD j default) nm)
+
+/-- **`C05_FULL` holds.** -/
+theorem C05_FULL_holds : C05_FULL := by
+  intro K _ _ _ _ p nm n raw hp hk hn hraw
+  obtain ⟨out, h1, h2, h3⟩ := Numeric.atr_engine_readings p hp nm n hk hn raw hraw
+  exact ⟨out, h1, h2, fun j hj => (h3 j hj).2.2.2⟩
+
+example : AtrNames "ATR_2" ∧ IsKey "ATR_2" := ⟨⟨by decide, by decide⟩, by decide⟩
+
+/-- What is still open, stated for STDEV (BBANDS, KC, STDEV-threshold: the same shape with their own
+predicates): for EVERY candle list – possibly already holding other indicators' readings – and an
+input that is ANOTHER INDICATOR's reading (an ordinary key different from the node's names, missing
+on the first `t0` candles and numeric afterwards), the engine's `calculate()` never raises and the
+own reading is `None` on the first `t0 + p` candles and afterwards a non-negative float within `ε_n`
+of the population standard deviation of the last `p` inputs – i.e. the series of `stdev_series`
+shifted by `t0`, whatever else the candles hold.
+NOT proved.  Proved instead: the instance `t0 = 0` on raw candles with a candle-field input
+(`stdev_series`, `Numeric.stdev_series_engine`, `stdev_series_batch`, `stdev_series_live`, and likewise
+for the other ten indicators above), and every single call for arbitrary inputs (first half of the
+file).  Missing: the series induction over candle lists with foreign columns and a late-starting
+reading as input (key locality of the tree's step along foreign columns); independently, the
+composition of the numeric statements with a collapsing timeframe, and IEEE effects. -/
+def C05_inputs_FULL : Prop :=
+  ∀ (K : Type) [Field K] [LinearOrder K] [IsStrictOrderedRing K] [LawfulPyF K] [NonnegSqrt K]
+    (p : Nat) (nm input : String) (n t0 : Nat) (cs : List (Candle K)) (x : Nat → K),
+    1 ≤ p → SdNames nm → IsKey input → input ≠ nm → input ≠ nm ++ "_data" →
+    (∀ c ∈ cs, dlookup nm c.inds = none ∧ dlookup nm c.subs = none ∧
+      dlookup (nm ++ "_data") c.inds = none ∧ dlookup (nm ++ "_data") c.subs = none) →
+    (∀ j, j < cs.length →
+      (match readingByCandle (cs.getD j default) input with
+        | .s (.num r) => some r.toF
+        | _ => none) = if j < t0 then none else some (x (j - t0))) →
+    ∃ out : List (Candle K), engineCalc (mkTop (.stdev (p : Int) input : Kind K) nm n) cs = .ok out ∧
+      out.length = cs.length ∧
+      ∀ j, j < cs.length →
+        (j < t0 → readingByCandle (out.getD j default) nm = .none) ∧
+        (t0 ≤ j → StdevOwnOK n (stdevSeries p x (j - t0)) (readingByCandle (out.getD j default) nm))
 
 end Hex.C05
